@@ -273,6 +273,9 @@ KERNEL_STUBS = [
     "mode (represented object unchanged, labels valid, centre/direction bookkeeping) do not depend on it",
     "np.linalg.norm as seen from renormalizer.mps.mp returns the constant 2 on symbolic arrays (the operator branch of _update_ms rescales the two factors by a "
     "norm and its inverse: the product must be invariant for any positive scalar)",
+    "scipy.linalg.eigh as seen from svd_qn (density-matrix path of the state-averaged two-site update): returns fixed positive eigenvalues and the identity as "
+    "eigenbasis - a complete orthonormal basis, NOT a diagonalisation of the block; the obligations decided with it (every root is reproduced by the kept basis when "
+    "nothing is truncated; labels) use only completeness and orthonormality. eigh_qn's own reconstruction contract is proved separately with exact factors (C18_kernel.prove_eigh)",
     "MatrixProduct.check_left_canonical / check_right_canonical return True (compress asserts canonical input; with trivial factorisations the tensors are not isometries)",
 ]
 
@@ -346,6 +349,13 @@ def kernel_stub_mode():
                 return a, eye(n)
             zero = np.array([[Poly.const(0)] * (n - m) for _ in range(m)], dtype=object).reshape(m, n - m)
             return np.concatenate([zero, eye(m)], axis=1), np.concatenate([fresh_block(n - m, n), a], axis=0)
+
+        @staticmethod
+        def eigh(a, *args, **kw):
+            # a complete orthonormal eigenbasis with fixed positive eigenvalues (ascending, as LAPACK returns them); see KERNEL_STUBS
+            a = np.asarray(a, dtype=object)
+            k = a.shape[0]
+            return np.array([4.0 ** (j - k + 2) for j in range(k)]), eye(k)
 
         def __getattr__(self, name):
             import scipy.linalg
